@@ -47,12 +47,13 @@ def gen_sunearth(seed, shard, n):
         # reflection
         Ls, Bs, Rs = Sun.geometric_geocentric_position(Epoch(t))
         Le, Be, Re = Earth.geometric_heliocentric_position(Epoch(t))
-        nut = rng.random() < 0.5
-        Las, Bas, Ras = Sun.apparent_geocentric_position(Epoch(t), nutation=nut)
-        Lae, Bae, Rae = Earth.apparent_heliocentric_position(Epoch(t), nutation=nut)
-        yield {"k": "refl", "yf": y, "tf": t, "Ls": fx(float(Ls)), "Bs": fx(float(Bs)), "Rs": fx(Rs), "Le": fx(float(Le)),
-               "Be": fx(float(Be)), "Re": fx(Re), "Las": fx(float(Las)), "Bas": fx(float(Bas)), "Ras": fx(Ras),
-               "Lae": fx(float(Lae)), "Bae": fx(float(Bae)), "Rae": fx(Rae)}
+        first = rng.random() < 0.5
+        for nut in (first, not first):          # the same epoch with both settings, in either order
+            Las, Bas, Ras = Sun.apparent_geocentric_position(Epoch(t), nutation=nut)
+            Lae, Bae, Rae = Earth.apparent_heliocentric_position(Epoch(t), nutation=nut)
+            yield {"k": "refl", "yf": y, "tf": t, "nut": 1 if nut else 0, "Ls": fx(float(Ls)), "Bs": fx(float(Bs)), "Rs": fx(Rs),
+                   "Le": fx(float(Le)), "Be": fx(float(Be)), "Re": fx(Re), "Las": fx(float(Las)), "Bas": fx(float(Bas)), "Ras": fx(Ras),
+                   "Lae": fx(float(Lae)), "Bae": fx(float(Bae)), "Rae": fx(Rae)}
         # frames
         ud, nd = _unit_norm(*Sun.rectangular_coordinates_mean_equinox(Epoch(t)))
         uJ, nJ = _unit_norm(*Sun.rectangular_coordinates_j2000(Epoch(t)))
